@@ -38,15 +38,18 @@ Section BlockSfx.
 
   Definition tailD (c : bool) (rest : list event) : list event :=
     fst (Rg GDeferred) ++ Wb (fin_st (c || negb (snd (Rg GDeferred)))) :: rest.
-  Definition sfxPost (rest : list event) : list event := fst (Rg GPost) ++ tailD (negb (snd (Rg GPost))) rest.
+  (* the cause is persisted at once, before the deferred checks *)
+  Definition tailE (rest : list event) : list event := Wb Failed :: fst (Rg GDeferred) ++ rest.
+  Definition sfxPost (rest : list event) : list event :=
+    fst (Rg GPost) ++ (if snd (Rg GPost) then tailD false rest else tailE rest).
   Definition sfxSeqs (rest : list event) : list event := fst seqsR ++ (if exc then tailD true rest else sfxPost rest).
   Definition sfxPre (rest : list event) : list event :=
-    fst (Rg GPre) ++ fst (Rg GCont) ++ (if snd (Rg GPre) && snd (Rg GCont) then sfxSeqs rest else tailD true rest).
+    fst (Rg GPre) ++ fst (Rg GCont) ++ (if snd (Rg GPre) && snd (Rg GCont) then sfxSeqs rest else tailE rest).
   Definition sfxByp (rest : list event) : list event :=
     fst (Rg GBypass) ++ (if bypassed then Wb Completed :: rest else sfxPre rest).
 
   Definition failD (c : bool) : bool := c || negb (snd (Rg GDeferred)).
-  Definition failPost : bool := failD (negb (snd (Rg GPost))).
+  Definition failPost : bool := if snd (Rg GPost) then failD false else true.
   Definition failSeqs : bool := if exc then true else failPost.
   Definition failPre : bool := if snd (Rg GPre) && snd (Rg GCont) then failSeqs else true.
   Definition failByp : bool := if bypassed then false else failPre.
@@ -54,14 +57,16 @@ Section BlockSfx.
   (* the suffixes with the rest appended *)
   Lemma tailD_app c rest : tailD c rest = tailD c [] ++ rest.
   Proof. unfold tailD. now rewrite <- app_assoc. Qed.
+  Lemma tailE_app rest : tailE rest = tailE [] ++ rest.
+  Proof. unfold tailE. cbn [app]. now rewrite app_nil_r. Qed.
   Lemma sfxPost_app rest : sfxPost rest = sfxPost [] ++ rest.
-  Proof. unfold sfxPost. now rewrite (tailD_app _ rest), app_assoc. Qed.
+  Proof. unfold sfxPost. rewrite <- app_assoc. f_equal. destruct (snd (Rg GPost)); [apply tailD_app|apply tailE_app]. Qed.
   Lemma sfxSeqs_app rest : sfxSeqs rest = sfxSeqs [] ++ rest.
   Proof. unfold sfxSeqs. rewrite <- app_assoc. f_equal. destruct exc; [apply tailD_app|apply sfxPost_app]. Qed.
   Lemma sfxPre_app rest : sfxPre rest = sfxPre [] ++ rest.
   Proof.
     unfold sfxPre. rewrite <- !app_assoc. do 2 f_equal.
-    destruct (snd (Rg GPre) && snd (Rg GCont)); [apply sfxSeqs_app|apply tailD_app].
+    destruct (snd (Rg GPre) && snd (Rg GCont)); [apply sfxSeqs_app|apply tailE_app].
   Qed.
   Lemma sfxByp_app rest : sfxByp rest = sfxByp [] ++ rest.
   Proof. unfold sfxByp. rewrite <- app_assoc. f_equal. destruct bypassed; [reflexivity|apply sfxPre_app]. Qed.
@@ -70,15 +75,16 @@ Section BlockSfx.
   Lemma block_run_sfx : fst (block_run o bi bs) = Wb Running :: sfxByp [] /\ snd (block_run o bi bs) = failByp.
   Proof.
     unfold block_run, sfxByp, failByp, bypassed, sfxPre, failPre, sfxSeqs, failSeqs, exc, seqsR, sfxPost, failPost,
-      tailD, failD, Rg, Wb. fold gs. fold sc. cbn [grp_get].
+      tailD, tailE, failD, Rg, Wb. fold gs. fold sc. cbn [grp_get].
     destruct (opt_grp_run o sc GBypass (g_bypass gs)) as [tb vb]. cbn [fst snd].
     destruct (present (g_bypass gs) && vb); [split; reflexivity|].
     destruct (opt_grp_run o sc GPre (g_pre gs)) as [tp vp]. destruct (opt_grp_run o sc GCont (g_cont gs)) as [tc vc].
     destruct (opt_grp_run o sc GDeferred (g_deferred gs)) as [td vd]. cbn [fst snd].
-    destruct (vp && vc); [|split; reflexivity].
+    destruct (vp && vc); [|rewrite app_nil_r; split; reflexivity].
     destruct (seqs_run o bs bi 0 (bs_seqs bs) (b_seqs (b_init bs))) as [ts qs]. cbn [fst snd].
     destruct (exceeded bs (seqs_view bs qs)); [split; reflexivity|].
-    destruct (opt_grp_run o sc GPost (g_post gs)) as [to vo]. cbn [fst snd]. split; reflexivity.
+    destruct (opt_grp_run o sc GPost (g_post gs)) as [to vo]. cbn [fst snd].
+    destruct vo; [split; reflexivity|]. rewrite app_nil_r. split; reflexivity.
   Qed.
 
   (* ---- present groups and sequences are not empty ---- *)
@@ -120,11 +126,17 @@ Section BlockSfx.
     Blocked sh (S_ ph bt bth false qs im) (tailD c' rest).
   Proof. intros H0 H1 H2. unfold tailD. apply Blocked_Rg; auto. now apply Blocked_Wb. Qed.
 
+  Lemma Blocked_tailE ph bt bth qs im rest : Blocked sh (S_ ph bt bth false qs im) (tailE rest).
+  Proof. unfold tailE. apply Blocked_cons. apply (F_failed sh bi bs); assumption. Qed.
+
   Lemma Blocked_sfxPost ph bt bth qs im rest :
     tget bt GPost = g0 -> tget bt GDeferred = g0 ->
     bphase_eqb ph BPost = false -> bphase_eqb ph BDeferred = false -> bphase_eqb ph BEnd = false ->
     Blocked sh (S_ ph bt bth false qs im) (sfxPost rest).
-  Proof. intros. unfold sfxPost. apply Blocked_Rg; auto. now apply Blocked_tailD. Qed.
+  Proof.
+    intros. unfold sfxPost. apply Blocked_Rg; auto.
+    destruct (snd (Rg GPost)); [now apply Blocked_tailD|apply Blocked_tailE].
+  Qed.
 
   Lemma Blocked_sfxSeqs ph bt bth qs im rest :
     tget bt GPost = g0 -> tget bt GDeferred = g0 -> bphase_eqb ph BSeqs = false ->
@@ -144,7 +156,7 @@ Section BlockSfx.
     Blocked sh (S_ ph bt bth false qs im) (sfxPre rest).
   Proof.
     intros. unfold sfxPre. apply Blocked_Rg; auto. apply Blocked_Rg; auto.
-    destruct (snd (Rg GPre) && snd (Rg GCont)); [now apply Blocked_sfxSeqs|now apply Blocked_tailD].
+    destruct (snd (Rg GPre) && snd (Rg GCont)); [now apply Blocked_sfxSeqs|apply Blocked_tailE].
   Qed.
 
   Lemma Blocked_sfxByp bt bth qs im rest :
